@@ -209,6 +209,8 @@ where
 
     #[inline(always)]
     pub fn unchecked_read_at(&self, index: usize, reader: &Reader) -> T {
+        #[cfg(anydb_verif)]
+        crate::verif::access("raw:unchecked_read_at", reader, HEADER_OFFSET + index * Self::SIZE_OF_T, Self::SIZE_OF_T);
         let ptr = reader.prefixed(HEADER_OFFSET).as_ptr();
         unsafe { S::read_from_ptr(ptr, index * Self::SIZE_OF_T) }
     }
@@ -475,6 +477,8 @@ where
             let val = if unlikely(update_iter.peek().is_some_and(|&(&k, _)| k == i)) {
                 update_iter.next().unwrap().1.clone()
             } else {
+                #[cfg(anydb_verif)]
+                crate::verif::access("raw:fold_dirty", &reader, HEADER_OFFSET + byte_off, Self::SIZE_OF_T);
                 unsafe { S::read_from_ptr(data_ptr, byte_off) }
             };
             byte_off += Self::SIZE_OF_T;
@@ -525,6 +529,8 @@ where
                 update_iter.next().unwrap().1.clone()
             } else {
                 // SAFETY: i < stored_len, reader holds mmap guard
+                #[cfg(anydb_verif)]
+                crate::verif::access("raw:try_fold_dirty", &reader, HEADER_OFFSET + byte_off, Self::SIZE_OF_T);
                 unsafe { S::read_from_ptr(data_ptr, byte_off) }
             };
             byte_off += Self::SIZE_OF_T;
